@@ -18,7 +18,7 @@ RULE = ("random Hermitian real-space models (1-3 WFs, <=9 R-vectors, 11 lattice 
         "Ham,AA,BB,CC,FF,GG,OO (+SS,SA,SHA,SR,SH,SHR) present; spinless / double_spin() with exact two-fold "
         "degeneracy / explicit time-reversal symmetric with use_irred_kpt) or polynomial k.p models; total grid "
         "N in [1..8]^3 (<=96 points); two drawn factorisations N=NKdiv*NKFFT and two drawn FFT libraries "
-        "(fftw/numpy/slow); 2-4 calculators drawn from a registry of 56 static/dynamic/tabulating calculators "
+        "(fftw/numpy/slow); 2-4 calculators drawn from a registry of 61 static/dynamic/sdct/tabulating calculators "
         "(static ones with and without tetrahedra); non-trivial = the two factorisations differ in NKdiv and in "
         "NKFFT and at least one compared result is non-zero; distinct = distinct generated case")
 ASSUMPTIONS = ["adaptive refinement is excluded (adpt_num_iter=0): it legitimately depends on the K partition",
@@ -74,6 +74,9 @@ _reg("d:SHC_ryoo", "dynamic", "SHC", dict(SHC_type="ryoo"), ("plain",))
 _reg("d:SHC_qiao", "dynamic", "SHC", dict(SHC_type="qiao"), ("plain",))
 _reg("d:ShiftCurrent", "dynamic", "ShiftCurrent", dict(sc_eta=0.1), ("nodeg", "kp"))
 _reg("d:InjectionCurrent", "dynamic", "InjectionCurrent", flags=("nodeg", "kp"))
+_reg("d:SDCT_kBT", "sdct", "SDCT", dict(kBT=0.05), ("slow",))          # kBT=0 with Fermi-surface terms gives NaN
+_reg("d:SDCT_sea", "sdct", "SDCT", dict(fermi_surf=False), ("slow",))
+_reg("d:SDCT_asym_kBT", "sdct", "SDCT_asym", dict(kBT=0.05), ("slow",))
 for _n in ["Energy", "Velocity", "InvMass", "Der3E", "BerryCurvature"]:
     _reg("t:" + _n, "tab", _n, flags=("kp",))
 for _n in ["DerBerryCurvature", "OrbitalMoment"]:
@@ -126,6 +129,9 @@ def build_calculators(entries, Ef, omega, ibands):
             c = getattr(calc.dynamic, cls)(Efermi=Ef.copy(), omega=omega.copy(), **kwargs)
             out[name] = c
             cf[name] = abs(c.constant_factor)
+        elif kind == "sdct":
+            out[name] = getattr(calc.sdct, cls)(Efermi=Ef.copy(), omega=omega.copy(), **kwargs)
+            cf[name] = 1.0
         elif kind == "tab":
             c = getattr(calc.tabulate, cls)(**kwargs)
             tabs[name] = c
@@ -363,5 +369,5 @@ def check(case):
 # wall-clock budgets can be stretched on an overloaded machine (never changes which cases are generated)
 import os as _os
 _BS = float(_os.environ.get("VERIF_BUDGET_SCALE", "1") or 1)
-SUBS = [Sub("run", case_st(), check, quick=48, thorough=960, budget_quick=70 * _BS, budget_thorough=500 * _BS),
-        Sub("kp", kp_case_st(), check, quick=8, thorough=160, budget_quick=40 * _BS, budget_thorough=300 * _BS)]
+SUBS = [Sub("run", case_st(), check, quick=48, thorough=4800, budget_quick=70 * _BS, budget_thorough=500 * _BS),
+        Sub("kp", kp_case_st(), check, quick=8, thorough=640, budget_quick=40 * _BS, budget_thorough=300 * _BS)]
